@@ -3,6 +3,7 @@ import json, os, re, subprocess
 import common
 
 LEAN_MODULES = ['OpusProps.C19']
+EXTENSIONS = ['C19gain']   # extension slices merged into this property's check (tools/EXT_BRIEF.md)
 GEN = []
 SOURCES = ['src/opus_private.h', 'src/opus.c', 'src/opus_decoder.c', 'include/opus.h', 'include/opus_defines.h', 'celt/arch.h',
            'celt/mathops.h', 'celt/float_cast.h']
